@@ -11,8 +11,10 @@ spawned clean-up tasks) and the ghost timeline. `Resets` says what restore_from_
      a sweep of storage options (value log / versioning / version index on-off, 4 KiB..1 MiB block cache, flush on
      close, deferred clean-up tasks); every point read, scan, history read, the checkpoint directory opened as a
      database, and the reopened store are judged with what the PROPERTY prescribes (ghost state only),
-  3. for every reset the code lacks (AllResets \\ CodeResets in the spec) TLC derives a counterexample of the model
-     `Resets = AllResets \\ {m}`; it is run on the real code: reproduced => VIOLATION, else conformance drift,
+  3. for every reset the pinned commit lacked (AllResets \\ PinnedResets in the spec) TLC derives a counterexample of the
+     model `Resets = AllResets \\ {m}` and it is run on the real code. Where the code has the reset now (CodeResets) it
+     must NOT reproduce (reproduced => VIOLATION: the repair is gone); where the code still lacks it, reproduced =>
+     VIOLATION / known finding, not reproduced => conformance drift,
   4. random long behaviours of the same spec (-simulate; 3 keys, 2 checkpoints, several restores and reopens).
 
 A violating scenario is attributed by experiment on the real code: it is re-run with single survivors of restore
@@ -76,7 +78,7 @@ def spec_sets():
         if not m:
             raise core.ToolError("cannot find %s in Checkpoint.tla" % name)
         return set(re.findall(r'"(\w+)"', m.group(1)))
-    return grab("AllResets"), grab("CodeResets")
+    return grab("AllResets"), grab("CodeResets"), grab("PinnedResets")
 
 
 def consts_of(c):
@@ -168,10 +170,11 @@ def export_and_replay(ctx, name, consts, sweeps, sim=None, depth=None, require_o
 
 
 def directed(ctx, base):
-    """For every reset the code lacks: a counterexample of the model that lacks only this reset, run on the real code."""
+    """For every reset the pinned commit lacked: a counterexample of the model that lacks only this reset, run on the
+    real code. Repaired resets (in CodeResets): the counterexample must exist (teeth) and must not reproduce."""
     from concurrent.futures import ThreadPoolExecutor
-    allr, coder = spec_sets()
-    missing = sorted(allr - coder)
+    allr, coder, pinned = spec_sets()
+    missing = sorted(allr - (coder & pinned))
     res = {}
 
     def search(m):
@@ -192,6 +195,9 @@ def directed(ctx, base):
         if not lines:
             if r["errors"] or r["exit"] not in (0, 12):
                 raise core.ToolError("TLC failed on the counterexample search for %s: %s" % (m, r["errors"][:2]))
+            if m in coder:
+                raise core.ToolError("the model without reset %r no longer violates the property: the directed "
+                                     "regression scenario for this repaired defect is gone" % m)
             # the model without this reset satisfies the property within the bounds: nothing to direct
             res[m] = "no counterexample within bounds"
             ctx.drift(1, "model without reset %s satisfies the property within the bounds (spec lists it as missing)" % m)
@@ -208,15 +214,19 @@ def directed(ctx, base):
             needs_seen.update(v.get("needs") or [])
         ctx.add_driver(s)
         report(ctx, s, fl)
-        if s["violation_count"] == 0 or (info["needs"] and info["needs"] not in needs_seen):
+        if m in coder:
+            # repaired: report() above has turned any reproduction into a VIOLATION
+            res[m] = "repaired: does not reproduce" if s["violation_count"] == 0 else \
+                "REPRODUCED although the spec lists the reset as present (needs %s)" % "+".join(sorted(needs_seen))
+        elif s["violation_count"] == 0 or (info["needs"] and info["needs"] not in needs_seen):
             res[m] = "not reproduced" + (" (other violations: needs %s)" % "+".join(sorted(needs_seen)) if needs_seen else "")
             ctx.drift(1, "the model lacks reset %r and predicts a violation; the real code does not show it "
                          "(update CodeResets in spec/ckpt/Checkpoint.tla)" % m)
         else:
             res[m] = "reproduced (needs %s)" % "+".join(sorted(needs_seen))
-        core.log("[c14] directed counterexample for missing reset %-8s: %s" % (m, res[m]))
+        core.log("[c14] directed counterexample for the model without reset %-8s: %s" % (m, res[m]))
     ctx.cov["directed_counterexamples"] = res
-    ctx.cov["resets_missing_in_code_per_spec"] = missing
+    ctx.cov["resets_missing_in_code_per_spec"] = sorted(allr - coder)
 
 
 def run(ctx):
